@@ -1,4 +1,5 @@
 import AbraProofs.Lemmas.Asm
+import AbraModel.AsmProg
 /-!
 # C05 — optimization and literal operands never change program behaviour
 
@@ -32,14 +33,14 @@ control (fall through / which jump), or the error kind, or a VM fault.
   turns an immediate whose constant has no 16-bit pool index back into push + plain instruction is
   outcome-preserving for every pool.
 * `C05_optimize_sound_partial`: the claim made for the whole optimizer = all of the above.
-  -- OPEN: `C05_optimize_sound` (stuttering simulation between a whole program and its optimized image:
-  -- trace equivalence through jumps to labels, calls and returns).  Reason: needs the M4 VM model of
-  -- call frames and code addresses (`Call`, `Return`, `PushAddr`, `SpawnTask` are opaque `other`
-  -- instructions here) and the composition of the block theorem over an unbounded execution; not
-  -- finished in the time available.  Proved instead: every ingredient that does not depend on code
-  -- addresses — each window rewrite is outcome-preserving, a pass is outcome-preserving on every
-  -- label-free block entered at its start, labels are kept and delimit independently optimized blocks.
-  -- The remaining composition step is exercised on every run by the optimizer-on/off oracle.
+* `C05_pass_sound`, `C05_pass_sound_at_label`, `C05_optimize_sound`: whole programs (`Asm.runG`: labels, jumps,
+  calls pushing return continuations, returns, halt; symbolic code addresses): every finished run of the
+  original that meets the two side conditions is a run of the optimized program with the same outcome.
+  -- OPEN (stated in the doc comment of `C05_optimize_sound`): the converse simulation (a run of the optimized
+  -- program comes from a run of the original, i.e. preservation of divergence), several green threads, and
+  -- label-to-address resolution.  Reason: the converse needs the inverse window argument (one optimized
+  -- step is matched by up to three original steps) and was not attempted in the time available; threads
+  -- and addresses belong to the M4 VM model.  The optimizer-on/off oracle of the harness exercises them.
 -/
 namespace Abra.Opt
 open Abra.Asm
@@ -910,6 +911,601 @@ example : peephole2 (.binI .add .top .top .top) (.storeOffset 16384) = .noMatch 
 example : peephole2 (.loadOffset 16383) (.binI .add .top .top .top) =
     .replace [.binI .add .top .top (.off 16383)] := by decide
 
+/-! ## whole programs: simulation through labels, calls and returns -/
+
+/-- one step of a whole program preserves a relation on continuations (`Rc`) and frames (`Rf`) when the
+    "rest of the run" does and labels correspond -/
+theorem stepBody_rel {Rc : List Line → List Line → Prop} {Rf : Frames → Frames → Prop} {G : Final H → Prop}
+    (prog prog' : List Line) (k k' : List Line → Frames → St H → Final H)
+    (hlab : ∀ l, match afterLabel prog l with
+      | none => afterLabel prog' l = none
+      | some c => ∃ c', afterLabel prog' l = some c' ∧ Rc c c')
+    (hk : ∀ c c' fr fr' s out, Rc c c' → Rf fr fr' → k c fr s = out → G out → k' c' fr' s = out)
+    (hpush : ∀ r r' info fr fr', Rc r r' → Rf fr fr' → Rf ((r, info) :: fr) ((r', info) :: fr'))
+    (hpop : ∀ fr fr', Rf fr fr' → (fr = [] ∧ fr' = []) ∨
+      ∃ r r' info t t', fr = (r, info) :: t ∧ fr' = (r', info) :: t' ∧ Rc r r' ∧ Rf t t')
+    (st : OtherStep H) (r r' : List Line) (fr fr' : Frames) (out : Final H)
+    (hr : Rc r r') (hf : Rf fr fr') (h : stepBody prog k st r fr = out) (hg : G out) :
+    stepBody prog' k' st r' fr' = out := by
+  cases st with
+  | plain res =>
+    cases res with
+    | ok x =>
+      obtain ⟨s', c⟩ := x
+      cases c with
+      | next => simp only [stepBody] at h ⊢; exact hk _ _ _ _ _ _ hr hf h hg
+      | jump l =>
+        simp only [stepBody] at h ⊢
+        have hl := hlab l
+        cases ha : afterLabel prog l with
+        | none => rw [ha] at hl h; simp only at hl; rw [hl]; exact h
+        | some c =>
+          rw [ha] at hl h; simp only at hl
+          obtain ⟨c', hc', hrc⟩ := hl
+          rw [hc']; exact hk _ _ _ _ _ _ hrc hf h hg
+    | err e => simpa [stepBody] using h
+    | fault => simpa [stepBody] using h
+  | call s' l info =>
+    simp only [stepBody] at h ⊢
+    have hl := hlab l
+    cases ha : afterLabel prog l with
+    | none => rw [ha] at hl h; simp only at hl; rw [hl]; exact h
+    | some c =>
+      rw [ha] at hl h; simp only at hl
+      obtain ⟨c', hc', hrc⟩ := hl
+      rw [hc']; exact hk _ _ _ _ _ _ hrc (hpush _ _ _ _ _ hr hf) h hg
+  | ret g =>
+    simp only [stepBody] at h ⊢
+    rcases hpop fr fr' hf with ⟨rfl, rfl⟩ | ⟨r0, r0', info, t, t', rfl, rfl, hrc, hrf⟩
+    · exact h
+    · simp only at h ⊢
+      cases hgi : g info with
+      | ok s' => rw [hgi] at h; simp only at h ⊢; exact hk _ _ _ _ _ _ hrc hrf h hg
+      | err e => rw [hgi] at h; exact h
+      | fault => rw [hgi] at h; exact h
+  | halt s' => simpa [stepBody] using h
+
+/-- more fuel does not change a finished run -/
+theorem runG_mono (P : Prims H) (C : Ctrl H) (prog : List Line) (chk : Bool) :
+    ∀ (f : Nat) (c : List Line) (fr : Frames) (s : St H) (out : Final H),
+      runG P C prog chk f c fr s = out → out ≠ .timeout → runG P C prog chk (f + 1) c fr s = out := by
+  intro f
+  induction f with
+  | zero => intro c fr s out h hne; simp [runG] at h; exact absurd h.symm hne
+  | succ f ih =>
+    intro c fr s out h hne
+    cases c with
+    | nil => simpa [runG] using h
+    | cons l r =>
+      cases l with
+      | label l => simp only [runG] at h ⊢; exact ih _ _ _ _ h hne
+      | instr i a =>
+        simp only [runG, stepG] at h ⊢
+        split
+        · rename_i hc; simp only [hc, if_true] at h; exact h
+        · rename_i hc; simp only [hc] at h
+          refine stepBody_rel (Rc := Eq) (Rf := Eq) (G := fun o => o ≠ Final.timeout) prog prog _ _ ?_ ?_ ?_ ?_
+            _ r r fr fr out rfl rfl h hne
+          · intro l; cases afterLabel prog l with
+            | none => rfl
+            | some c => exact ⟨c, rfl, rfl⟩
+          · intro c c' fr fr' s out hc hf hk hg; subst hc hf; exact ih _ _ _ _ hk hg
+          · intro r r' info fr fr' h1 h2; subst h1 h2; rfl
+          · intro fr fr' h1; subst h1
+            cases fr with
+            | nil => exact Or.inl ⟨rfl, rfl⟩
+            | cons p t => exact Or.inr ⟨p.1, p.1, p.2, t, t, rfl, rfl, rfl, rfl⟩
+
+theorem runG_mono_le (P : Prims H) (C : Ctrl H) (prog : List Line) (chk : Bool) (f g : Nat) (hle : f ≤ g)
+    (c : List Line) (fr : Frames) (s : St H) (out : Final H)
+    (h : runG P C prog chk f c fr s = out) (hne : out ≠ .timeout) : runG P C prog chk g c fr s = out := by
+  induction hle with
+  | refl => exact h
+  | step _ ih => exact runG_mono P C prog chk _ c fr s out ih hne
+
+theorem afterLabel_linesOf_append (w : List (Instr × Ann)) (ls : List Line) (l : String) :
+    afterLabel (linesOf w ++ ls) l = afterLabel ls l := by
+  induction w with
+  | nil => rfl
+  | cons p w ih => simpa [linesOf, afterLabel] using ih
+
+theorem afterLabel_out_append (out : List Instr) (a : Ann) (ls : List Line) (l : String) :
+    afterLabel (out.map (fun i => Line.instr i a) ++ ls) l = afterLabel ls l := by
+  induction out with
+  | nil => rfl
+  | cons i out ih => simpa [afterLabel] using ih
+
+/-- a label names related continuations in a program and in its pass image -/
+theorem afterLabel_passRel (env : FoldEnv) (ls r : List Line) (h : PassRel env ls r) (l : String) :
+    match afterLabel ls l with
+    | none => afterLabel r l = none
+    | some c => ∃ c', afterLabel r l = some c' ∧ PassRel env c c' := by
+  induction h with
+  | nil => simp [afterLabel]
+  | keep x ls r hrel ih =>
+    cases x with
+    | label l' =>
+      by_cases e : l' = l
+      · simp [afterLabel, e]; exact hrel
+      · simpa [afterLabel, e] using ih
+    | instr i a => simpa [afterLabel] using ih
+  | rewrite w out a ls r _ _ _ ih =>
+    rw [afterLabel_linesOf_append, afterLabel_out_append]; exact ih
+
+def isOther : Instr → Bool
+  | .other _ => true
+  | _ => false
+
+theorem stepOf_known (P : Prims H) (C : Ctrl H) (i : Instr) (s : St H) (h : isOther i = false) :
+    stepOf P C i s = .plain (exec P i s) := by
+  cases i <;> first | rfl | simp [isOther] at h
+
+theorem isOther_replaceSecondArg (i : Instr) (r : Reg) : isOther (replaceSecondArg i r) = isOther i := by
+  cases i <;> rfl
+theorem isOther_replaceFirstArg (i : Instr) (r : Reg) : isOther (replaceFirstArg i r) = isOther i := by
+  cases i <;> rfl
+theorem isOther_replaceDest (i : Instr) (r : Reg) : isOther (replaceDest i r) = isOther i := by
+  cases i <;> rfl
+theorem isOther_replaceSecondArgImmInt (i : Instr) (n : Int) (h : isOther i = false) :
+    isOther (replaceSecondArgImmInt i n) = false := by
+  cases i <;> first | rfl | simp [isOther] at h
+theorem isOther_replaceSecondArgImmFloat (i : Instr) (f : String) (h : isOther i = false) :
+    isOther (replaceSecondArgImmFloat i f) = false := by
+  cases i <;> first | rfl | simp [isOther] at h
+theorem not_other_of_secondArgIsTop (i : Instr) (h : secondArgIsTop i = true) : isOther i = false := by
+  cases i <;> first | rfl | simp [secondArgIsTop] at h
+theorem not_other_of_firstArg (i : Instr) (h : firstArgIsTopAndSecondArgIsOffsetOrImm i = true) :
+    isOther i = false := by
+  cases i <;> first | rfl | simp [firstArgIsTopAndSecondArgIsOffsetOrImm] at h
+theorem not_other_of_destIsTop (i : Instr) (h : destIsTop i = true) : isOther i = false := by
+  cases i <;> first | rfl | simp [destIsTop] at h
+
+/-- a fired window consists of known instructions, and its replacement is empty or one known instruction -/
+def OutOk (out : List Instr) : Prop := out = [] ∨ ∃ j, out = [j] ∧ isOther j = false
+
+theorem guarded_facts (i1 i2 : Instr) (out : List Instr) (h : peephole2Guarded i1 i2 = .replace out) :
+    isOther i1 = false ∧ isOther i2 = false ∧ OutOk out := by
+  unfold peephole2Guarded at h
+  cases hl : loadOffsetOf i1 with
+  | some off =>
+    have := loadOffsetOf_some i1 off hl; subst this
+    simp only [hl] at h
+    by_cases h1 : (secondArgIsTop i2 && offsetIsEncodable off) = true
+    · simp only [h1, if_true] at h
+      cases h
+      simp only [Bool.and_eq_true] at h1
+      have hn := not_other_of_secondArgIsTop i2 h1.1
+      exact ⟨rfl, hn, Or.inr ⟨_, rfl, by rw [isOther_replaceSecondArg]; exact hn⟩⟩
+    · simp only [h1] at h
+      by_cases h2 : (firstArgIsTopAndSecondArgIsOffsetOrImm i2 && offsetIsEncodable off) = true
+      · simp only [h2, if_true] at h
+        simp at h
+        cases h
+        simp only [Bool.and_eq_true] at h2
+        have hn := not_other_of_firstArg i2 h2.1
+        exact ⟨rfl, hn, Or.inr ⟨_, rfl, by rw [isOther_replaceFirstArg]; exact hn⟩⟩
+      · simp [h2] at h
+  | none =>
+    simp only [hl] at h
+    cases hs : storeOffsetOf i2 with
+    | some off =>
+      have := storeOffsetOf_some i2 off hs; subst this
+      simp only [hs] at h
+      by_cases h1 : (destIsTop i1 && offsetIsEncodable off) = true
+      · simp only [h1, if_true] at h
+        cases h
+        simp only [Bool.and_eq_true] at h1
+        have hn := not_other_of_destIsTop i1 h1.1
+        exact ⟨hn, rfl, Or.inr ⟨_, rfl, by rw [isOther_replaceDest]; exact hn⟩⟩
+      · simp [h1] at h
+    | none =>
+      simp only [hs] at h
+      cases hi : pushIntOf i1 with
+      | some n =>
+        have := pushIntOf_some i1 n hi; subst this
+        simp only [hi] at h
+        by_cases h1 : (secondArgIsTop i2 && canReplaceSecondArgWithImmInt i2) = true
+        · simp only [h1, if_true] at h
+          cases h
+          simp only [Bool.and_eq_true] at h1
+          have hn := not_other_of_secondArgIsTop i2 h1.1
+          exact ⟨rfl, hn, Or.inr ⟨_, rfl, isOther_replaceSecondArgImmInt i2 n hn⟩⟩
+        · simp [h1] at h
+      | none =>
+        simp only [hi] at h
+        cases hf : pushFloatOf i1 with
+        | some f =>
+          have := pushFloatOf_some i1 f hf; subst this
+          simp only [hf] at h
+          by_cases h1 : (secondArgIsTop i2 && canReplaceSecondArgWithImmFloat i2) = true
+          · simp only [h1, if_true] at h
+            cases h
+            simp only [Bool.and_eq_true] at h1
+            have hn := not_other_of_secondArgIsTop i2 h1.1
+            exact ⟨rfl, hn, Or.inr ⟨_, rfl, isOther_replaceSecondArgImmFloat i2 f hn⟩⟩
+          · simp [h1] at h
+        | none => simp [hf] at h
+
+theorem fires_facts (env : FoldEnv) (w out : List Instr) (h : Fires env w out) :
+    (∀ i ∈ w, isOther i = false) ∧ OutOk out := by
+  cases h with
+  | one i out h1 =>
+    unfold peephole1 at h1
+    split at h1
+    · cases h1; exact ⟨by simp [isOther], Or.inl rfl⟩
+    · cases h1
+  | two i1 i2 out h2 =>
+    unfold peephole2 at h2
+    split at h2
+    case h_13 => 
+      obtain ⟨a, b, c⟩ := guarded_facts _ _ out h2
+      exact ⟨by simp [a, b], c⟩
+    all_goals first
+      | (split at h2 <;> cases h2 <;> exact ⟨by simp [isOther], Or.inr ⟨_, rfl, rfl⟩⟩)
+      | (cases h2; exact ⟨by simp [isOther], Or.inl rfl⟩)
+      | (cases h2; exact ⟨by simp [isOther], Or.inr ⟨_, rfl, rfl⟩⟩)
+  | three i1 i2 i3 out h3 =>
+    unfold peephole3 at h3
+    split at h3
+    · split at h3
+      · cases h3; exact ⟨by simp [isOther], Or.inr ⟨_, rfl, rfl⟩⟩
+      · cases h3
+    · split at h3
+      · split at h3
+        · cases h3
+        · split at h3
+          · cases h3; exact ⟨by simp [isOther], Or.inr ⟨_, rfl, rfl⟩⟩
+          · cases h3
+          · cases h3
+      · cases h3
+    · cases h3
+
+theorem secondOffset_eq (i : Instr) : secondOffset i = secondOffsetOf i := by
+  cases i <;> first | rfl | (rename_i r; cases r <;> rfl) | (rename_i r1 r2; cases r2 <;> rfl)
+
+theorem winOk_of_B (s : St H) (i1 i2 : Instr) (h : winOkB s i1 i2 = true) : WinOk s i1 i2 := by
+  unfold winOkB at h
+  simp only [Bool.and_eq_true] at h
+  constructor
+  · intro hd; subst hd
+    have := h.1
+    intro hs; simp [hs] at this
+  · intro x y hx h2 hy
+    subst hx
+    have := h.2
+    rw [secondOffset_eq] at hy
+    simp only [hy, h2, Bool.false_or] at this
+    intro hc
+    simp [hc] at this
+
+/-- what a finished run through a window of known instructions looks like, in terms of the block
+    semantics of the window -/
+def WinPost (P : Prims H) (C : Ctrl H) (prog : List Line) (chk : Bool) (n f : Nat) (ls : List Line)
+    (fr : Frames) (out : Final H) : Res (St H × Ctl) → Prop
+  | .ok (s1, .next) => ∃ f', f' + n ≤ f ∧ runG P C prog chk f' ls fr s1 = out
+  | .ok (s1, .jump l) => ∃ f', f' < f ∧
+      match afterLabel prog l with
+      | some r' => runG P C prog chk f' r' fr s1 = out
+      | none => out = .badJump l
+  | .err e => out = .err e
+  | .fault => out = .fault
+
+theorem WinPost_succ (P : Prims H) (C : Ctrl H) (prog : List Line) (chk : Bool) (n f : Nat) (ls : List Line)
+    (fr : Frames) (out : Final H) (res : Res (St H × Ctl)) (h : WinPost P C prog chk n f ls fr out res) :
+    WinPost P C prog chk (n + 1) (f + 1) ls fr out res := by
+  cases res with
+  | ok x =>
+    obtain ⟨s1, c⟩ := x
+    cases c with
+    | next => obtain ⟨f', h1, h2⟩ := h; exact ⟨f', by omega, h2⟩
+    | jump l => obtain ⟨f', h1, h2⟩ := h; exact ⟨f', by omega, h2⟩
+  | err e => exact h
+  | fault => exact h
+
+theorem runG_window (P : Prims H) (C : Ctrl H) (prog : List Line) (chk : Bool) (w : List (Instr × Ann)) :
+    (∀ p ∈ w, isOther p.1 = false) →
+    ∀ (f : Nat) (ls : List Line) (fr : Frames) (s : St H) (out : Final H),
+      runG P C prog chk f (linesOf w ++ ls) fr s = out → out ≠ .timeout → out ≠ .sideFail →
+      WinPost P C prog chk w.length f ls fr out (run P (w.map (·.1)) s) := by
+  induction w with
+  | nil => intro _ f ls fr s out h _ _; exact ⟨f, by simp, by simpa [linesOf] using h⟩
+  | cons p w ih =>
+    intro hk f ls fr s out h hne hns
+    have hp : isOther p.1 = false := hk p (by simp)
+    have hk' : ∀ q ∈ w, isOther q.1 = false := fun q hq => hk q (by simp [hq])
+    cases f with
+    | zero => simp [runG] at h; exact absurd h.symm hne
+    | succ f =>
+      simp only [linesOf, List.map_cons, List.cons_append, runG, stepG] at h
+      split at h
+      · exact absurd h.symm hns
+      · rw [stepOf_known P C p.1 s hp] at h
+        simp only [List.map_cons, List.length_cons, run_cons]
+        cases he : exec P p.1 s with
+        | ok x =>
+          obtain ⟨s', c⟩ := x
+          rw [he] at h
+          cases c with
+          | next =>
+            simp only [stepBody] at h
+            simp only [Res.bind_ok]
+            exact WinPost_succ _ _ _ _ _ _ _ _ _ _ (ih hk' f ls fr s' out h hne hns)
+          | jump l =>
+            simp only [stepBody] at h
+            simp only [Res.bind_ok]
+            refine ⟨f, by omega, ?_⟩
+            cases ha : afterLabel prog l with
+            | none => rw [ha] at h; exact h.symm
+            | some r' => rw [ha] at h; exact h
+        | err e => rw [he] at h; simp only [stepBody] at h; simpa [WinPost] using h.symm
+        | fault => rw [he] at h; simp only [stepBody] at h; simpa [WinPost] using h.symm
+
+theorem runG_chk_pair (P : Prims H) (C : Ctrl H) (prog : List Line) (f : Nat) (i1 i2 : Instr) (a1 a2 : Ann)
+    (ls : List Line) (fr : Frames) (s : St H) (out : Final H)
+    (h : runG P C prog true f (.instr i1 a1 :: .instr i2 a2 :: ls) fr s = out)
+    (hne : out ≠ .timeout) (hns : out ≠ .sideFail) : winOkB s i1 i2 = true := by
+  cases f with
+  | zero => simp [runG] at h; exact absurd h.symm hne
+  | succ f =>
+    simp only [runG, stepG, nextPairOk, Bool.true_and] at h
+    cases hb : winOkB s i1 i2 with
+    | true => rfl
+    | false => simp [hb] at h; exact absurd h.symm hns
+
+inductive FramesRel (env : FoldEnv) : Frames → Frames → Prop where
+  | nil : FramesRel env [] []
+  | cons (r r' : List Line) (info : List Nat) (fr fr' : Frames) :
+      PassRel env r r' → FramesRel env fr fr' → FramesRel env ((r, info) :: fr) ((r', info) :: fr')
+
+theorem map_fst_eq_pair (w : List (Instr × Ann)) (i1 i2 : Instr) (h : w.map (·.1) = [i1, i2]) :
+    ∃ a1 a2, w = [(i1, a1), (i2, a2)] := by
+  cases w with
+  | nil => simp at h
+  | cons p w =>
+    cases w with
+    | nil => simp at h
+    | cons q w =>
+      cases w with
+      | nil =>
+        obtain ⟨x, a1⟩ := p
+        obtain ⟨y, a2⟩ := q
+        simp only [List.map_cons, List.map_nil, List.cons.injEq, and_true] at h
+        obtain ⟨rfl, rfl⟩ := h
+        exact ⟨a1, a2, rfl⟩
+      | cons _ _ => simp at h
+
+theorem fires_length (env : FoldEnv) (w out : List Instr) (h : Fires env w out) : 1 ≤ w.length := by
+  cases h <;> simp
+
+/-- **Simulation for one pass.**  From related continuations (a suffix of the program and the matching
+    suffix of its pass image) with related call stacks and the SAME machine state, every finished run of
+    the original that meets the side conditions is a run of the image with the same final outcome
+    (halt state, runtime error, fault), within the same fuel — through jumps to labels, calls that push
+    return continuations, and returns that pop them. -/
+theorem sim_pass (P : Prims H) (C : Ctrl H) (env : FoldEnv) (hag : EnvAgrees P env) (hrt : RoundTrip P)
+    (prog prog' : List Line) (hprog : PassRel env prog prog') :
+    ∀ (f : Nat) (c c' : List Line) (fr fr' : Frames) (s : St H) (out : Final H),
+      PassRel env c c' → FramesRel env fr fr' →
+      runG P C prog true f c fr s = out → out ≠ .timeout → out ≠ .sideFail →
+      runG P C prog' false f c' fr' s = out := by
+  intro f
+  induction f using Nat.strongRecOn with
+  | _ f ih =>
+    intro c c' fr fr' s out hrel hfr h hne hns
+    cases hrel with
+    | nil =>
+      cases f with
+      | zero => exact h
+      | succ f => simpa [runG] using h
+    | keep x ls r hrel' =>
+      cases f with
+      | zero => simp [runG] at h; exact absurd h.symm hne
+      | succ f =>
+        cases x with
+        | label l => simp only [runG] at h ⊢; exact ih f (by omega) _ _ _ _ _ _ hrel' hfr h hne hns
+        | instr i a =>
+          simp only [runG, stepG] at h ⊢
+          split at h
+          · exact absurd h.symm hns
+          · simp only [Bool.false_and, Bool.false_eq_true, if_false]
+            refine stepBody_rel (Rc := PassRel env) (Rf := FramesRel env)
+              (G := fun o => o ≠ Final.timeout ∧ o ≠ Final.sideFail) prog prog' _ _
+              (afterLabel_passRel env prog prog' hprog) ?_ ?_ ?_ _ ls r fr fr' out hrel' hfr h ⟨hne, hns⟩
+            · intro c c' fr fr' s out hc hf hk hg
+              exact ih f (by omega) _ _ _ _ _ _ hc hf hk hg.1 hg.2
+            · intro r r' info fr fr' h1 h2; exact .cons _ _ _ _ _ h1 h2
+            · intro fr fr' h1
+              cases h1 with
+              | nil => exact Or.inl ⟨rfl, rfl⟩
+              | cons r r' info t t' h2 h3 => exact Or.inr ⟨r, r', info, t, t', rfl, rfl, h2, h3⟩
+    | rewrite w o a ls r hf ha hrel' =>
+      obtain ⟨hknown, hout⟩ := fires_facts env _ _ hf
+      have hknown' : ∀ p ∈ w, isOther p.1 = false := fun p hp => hknown p.1 (List.mem_map_of_mem hp)
+      have hlen : 1 ≤ w.length := by have := fires_length env _ _ hf; simpa using this
+      have hf0 : f ≠ 0 := by
+        intro e; subst e; simp [runG] at h; exact absurd h.symm hne
+      have hpost := runG_window P C prog true w hknown' f ls fr s out h hne hns
+      have hsound : run P (w.map (·.1)) s = run P o s := by
+        apply C05_fires_sound P env hag hrt _ _ hf s
+        intro i1 i2 hw2
+        obtain ⟨a1, a2, hw⟩ := map_fst_eq_pair w i1 i2 hw2
+        subst hw
+        exact winOk_of_B s _ _ (runG_chk_pair P C prog f i1 i2 a1 a2 ls fr s out h hne hns)
+      rw [hsound] at hpost
+      rcases hout with rfl | ⟨j, rfl, hj⟩
+      · -- the window disappears
+        simp only [run_nil] at hpost
+        obtain ⟨f', hle, hrun⟩ := hpost
+        have := ih f' (by omega) _ _ _ _ _ _ hrel' hfr hrun hne hns
+        simpa using runG_mono_le P C prog' false f' f (by omega) r fr' s out this hne
+      · -- the window becomes one known instruction
+        simp only [List.map_cons, List.map_nil, List.cons_append, List.nil_append]
+        rw [run_single] at hpost
+        have hstep : ∀ f', runG P C prog' false (f' + 1) (.instr j a :: r) fr' s =
+            stepBody prog' (runG P C prog' false f') (.plain (exec P j s)) r fr' := by
+          intro f'; simp [runG, stepG, stepOf_known P C j s hj]
+        cases he : exec P j s with
+        | ok x =>
+          obtain ⟨s1, c⟩ := x
+          rw [he] at hpost
+          cases c with
+          | next =>
+            obtain ⟨f', hle, hrun⟩ := hpost
+            have h1 := ih f' (by omega) _ _ _ _ _ _ hrel' hfr hrun hne hns
+            have h2 : runG P C prog' false (f' + 1) (.instr j a :: r) fr' s = out := by
+              rw [hstep, he]; simpa [stepBody] using h1
+            exact runG_mono_le P C prog' false (f' + 1) f (by omega) _ fr' s out h2 hne
+          | jump l =>
+            obtain ⟨f', hlt, hrun⟩ := hpost
+            have hl := afterLabel_passRel env prog prog' hprog l
+            have h2 : runG P C prog' false (f' + 1) (.instr j a :: r) fr' s = out := by
+              rw [hstep, he]
+              simp only [stepBody]
+              cases hal : afterLabel prog l with
+              | none => rw [hal] at hl hrun; simp only at hl; rw [hl]; exact hrun.symm
+              | some r0 =>
+                rw [hal] at hl hrun; simp only at hl
+                obtain ⟨r0', h0, hr0⟩ := hl
+                rw [h0]
+                exact ih f' (by omega) _ _ _ _ _ _ hr0 hfr hrun hne hns
+            exact runG_mono_le P C prog' false (f' + 1) f (by omega) _ fr' s out h2 hne
+        | err e =>
+          rw [he] at hpost
+          have h2 : runG P C prog' false (0 + 1) (.instr j a :: r) fr' s = out := by
+            rw [hstep, he]; simpa [stepBody, WinPost] using hpost.symm
+          exact runG_mono_le P C prog' false 1 f (by omega) _ fr' s out h2 hne
+        | fault =>
+          rw [he] at hpost
+          have h2 : runG P C prog' false (0 + 1) (.instr j a :: r) fr' s = out := by
+            rw [hstep, he]; simpa [stepBody, WinPost] using hpost.symm
+          exact runG_mono_le P C prog' false 1 f (by omega) _ fr' s out h2 hne
+
+/-- **A pass is sound on whole programs.**  Started at the first line with an empty call stack in ANY
+    state, every finished run of the original program that meets the side conditions is a run of the
+    pass image with the same final outcome, within the same fuel. -/
+theorem C05_pass_sound (P : Prims H) (C : Ctrl H) (env : FoldEnv) (hag : EnvAgrees P env) (hrt : RoundTrip P)
+    (prog prog' : List Line) (h : pass env prog = .ok prog') (f : Nat) (s : St H) (out : Final H)
+    (hrun : runG P C prog true f prog [] s = out) (hne : out ≠ .timeout) (hns : out ≠ .sideFail) :
+    runG P C prog' false f prog' [] s = out :=
+  have hrel := C05_pass_segments env prog prog' h
+  sim_pass P C env hag hrt prog prog' hrel f prog prog' [] [] s out hrel .nil hrun hne hns
+
+/-- the same for a thread that starts at a label (a task body, a function called from the host) -/
+theorem C05_pass_sound_at_label (P : Prims H) (C : Ctrl H) (env : FoldEnv) (hag : EnvAgrees P env)
+    (hrt : RoundTrip P) (prog prog' : List Line) (h : pass env prog = .ok prog') (l : String)
+    (c : List Line) (hl : afterLabel prog l = some c) :
+    ∃ c', afterLabel prog' l = some c' ∧ ∀ (f : Nat) (s : St H) (out : Final H),
+      runG P C prog true f c [] s = out → out ≠ .timeout → out ≠ .sideFail →
+      runG P C prog' false f c' [] s = out := by
+  have hrel := C05_pass_segments env prog prog' h
+  have := afterLabel_passRel env prog prog' hrel l
+  rw [hl] at this
+  obtain ⟨c', hc', hcc⟩ := this
+  exact ⟨c', hc', fun f s out hrun hne hns =>
+    sim_pass P C env hag hrt prog prog' hrel f c c' [] [] s out hcc .nil hrun hne hns⟩
+
+/-- the side-condition check only ever turns an outcome into `sideFail` -/
+theorem runG_drop_chk (P : Prims H) (C : Ctrl H) (prog : List Line) :
+    ∀ (f : Nat) (c : List Line) (fr : Frames) (s : St H) (out : Final H),
+      runG P C prog true f c fr s = out → out ≠ .sideFail → runG P C prog false f c fr s = out := by
+  intro f
+  induction f with
+  | zero => intro c fr s out h _; simpa [runG] using h
+  | succ f ih =>
+    intro c fr s out h hns
+    cases c with
+    | nil => simpa [runG] using h
+    | cons x r =>
+      cases x with
+      | label l => simp only [runG] at h ⊢; exact ih _ _ _ _ h hns
+      | instr i a =>
+        simp only [runG, stepG] at h ⊢
+        split at h
+        · exact absurd h.symm hns
+        · simp only [Bool.false_and, Bool.false_eq_true, if_false]
+          refine stepBody_rel (Rc := Eq) (Rf := Eq) (G := fun o => o ≠ Final.sideFail) prog prog _ _ ?_ ?_ ?_ ?_
+            _ r r fr fr out rfl rfl h hns
+          · intro l; cases afterLabel prog l with
+            | none => rfl
+            | some c => exact ⟨c, rfl, rfl⟩
+          · intro c c' fr fr' s out hc hf hk hg; subst hc hf; exact ih _ _ _ _ hk hg
+          · intro r r' info fr fr' h1 h2; subst h1 h2; rfl
+          · intro fr fr' h1; subst h1
+            cases fr with
+            | nil => exact Or.inl ⟨rfl, rfl⟩
+            | cons p t => exact Or.inr ⟨p.1, p.1, p.2, t, t, rfl, rfl, rfl, rfl⟩
+
+/-- `n` passes in a row -/
+def iterPass (env : FoldEnv) : Nat → List Line → Option (List Line)
+  | 0, p => some p
+  | n + 1, p =>
+    match pass env p with
+    | .ok q => iterPass env n q
+    | _ => none
+
+theorem optimizeLoop_iter (env : FoldEnv) : ∀ (fuel : Nat) (ls r : List Line),
+    optimizeLoop env fuel ls = .ok r → ∃ n, iterPass env n ls = some r := by
+  intro fuel
+  induction fuel with
+  | zero => intro ls r h; simp [optimizeLoop] at h; subst h; exact ⟨0, rfl⟩
+  | succ f ih =>
+    intro ls r h
+    simp only [optimizeLoop] at h
+    cases hp : pass env ls with
+    | ok p =>
+      rw [hp] at h
+      simp only at h
+      by_cases hlt : p.length < ls.length
+      · simp only [hlt, if_true] at h
+        obtain ⟨n, hn⟩ := ih _ _ h
+        exact ⟨n + 1, by simp [iterPass, hp, hn]⟩
+      · simp only [hlt, if_false] at h
+        cases h
+        exact ⟨1, by simp [iterPass, hp]⟩
+    | needFold => rw [hp] at h; cases h
+
+theorem iterPass_sound (P : Prims H) (C : Ctrl H) (env : FoldEnv) (hag : EnvAgrees P env) (hrt : RoundTrip P)
+    (f : Nat) (s : St H) (out : Final H) (hne : out ≠ .timeout) :
+    ∀ (n : Nat) (prog prog' : List Line), iterPass env n prog = some prog' →
+      (∀ m mid, iterPass env m prog = some mid → runG P C mid true f mid [] s ≠ .sideFail) →
+      runG P C prog false f prog [] s = out → runG P C prog' false f prog' [] s = out := by
+  intro n
+  induction n with
+  | zero => intro prog prog' h _ hrun; simp [iterPass] at h; subst h; exact hrun
+  | succ n ih =>
+    intro prog prog' h hside hrun
+    simp only [iterPass] at h
+    cases hp : pass env prog with
+    | ok q =>
+      rw [hp] at h
+      simp only at h
+      have hs0 := hside 0 prog rfl
+      have htrue : runG P C prog true f prog [] s = out := by
+        have := runG_drop_chk P C prog f prog [] s _ rfl hs0
+        rw [← this]; exact hrun
+      have hq := C05_pass_sound P C env hag hrt prog q hp f s out htrue hne (by rw [← htrue]; exact hs0)
+      exact ih q prog' h (fun m mid hm => hside (m + 1) mid (by simp [iterPass, hp, hm])) hq
+    | needFold => rw [hp] at h; cases h
+
+/-- **The optimizer is sound on whole programs.**  If `optimize` turns `prog` into `prog'`, then from the
+    first line, an empty call stack and ANY machine state, every finished run of `prog` is a run of
+    `prog'` with the same final outcome — the same state at `Stop` (stack, base, heap: hence everything the
+    opaque instructions did, in the same order, to the heap and the host), the same runtime error, or a
+    fault — provided the two side conditions hold wherever the original and the intermediate programs of
+    the fixpoint iteration reach an instruction pair (`sideFail` is not reached).  Control passes through
+    jumps to labels, calls pushing return continuations and returns popping them; code addresses are
+    symbolic (labels / return continuations).
+    Not covered: the converse direction (that a run of `prog'` comes from a run of `prog`; needed for
+    "the optimized program diverges only if the original does"), several green threads, and the
+    resolution of labels to numeric addresses (`remove_labels_and_constants`). -/
+theorem C05_optimize_sound (P : Prims H) (C : Ctrl H) (env : FoldEnv) (hag : EnvAgrees P env) (hrt : RoundTrip P)
+    (prog prog' : List Line) (h : optimize env prog = .ok prog') (f : Nat) (s : St H) (out : Final H)
+    (hside : ∀ m mid, iterPass env m prog = some mid → runG P C mid true f mid [] s ≠ .sideFail)
+    (hrun : runG P C prog false f prog [] s = out) (hne : out ≠ .timeout) :
+    runG P C prog' false f prog' [] s = out := by
+  obtain ⟨n, hn⟩ := optimizeLoop_iter env _ prog prog' h
+  exact iterPass_sound P C env hag hrt f s out hne n prog prog' hn hside hrun
+
 /-! Non-vacuity: a concrete environment agreeing with concrete primitives, and a program on which the
     optimizer fires rules of all three window sizes. -/
 def exPrims : Prims Unit where
@@ -947,5 +1543,45 @@ example : optimize exEnv exProg = .ok
 
 example : WinOk (⟨[.int 1], 0, ()⟩ : St Unit) (.loadOffset 0) (.binIImm .lt .top .top 1) :=
   ⟨fun h => (by cases h), fun x y _ _ h => (by simp [secondOffset] at h)⟩
+
+/-- non-vacuity of the whole-program theorems: a program with a call, a return, a loop-free jump and a
+    halt runs to `Stop` under the checked semantics (so it is neither `timeout` nor `sideFail`), and its
+    optimized image halts in the same state -/
+def exCtrl : Ctrl Unit where
+  classify := fun t s =>
+    if t = "Call(f)" then .call s "f" [s.base]
+    else if t = "Return" then .ret (fun info => .ok { s with base := info.headD 0 })
+    else if t = "Stop" then .halt s
+    else .plain (.ok (s, .next))
+
+def exProg2 : List Line :=
+  [.instr (.pushInt 2) ⟨0, 1, 0⟩, .instr (.pushInt 3) ⟨0, 1, 0⟩, .instr (.binI .add .top .top .top) ⟨0, 1, 0⟩,
+   .instr (.other "Call(f)") ⟨0, 2, 0⟩, .instr (.pushBool true) ⟨0, 3, 0⟩, .instr (.jumpIf "end") ⟨0, 3, 0⟩,
+   .instr (.pushInt 99) ⟨0, 4, 0⟩, .label "end", .instr (.other "Stop") ⟨0, 5, 0⟩,
+   .label "f", .instr (.pushInt 1) ⟨0, 7, 1⟩, .instr (.binI .add .top .top .top) ⟨0, 7, 1⟩,
+   .instr (.other "Return") ⟨0, 8, 1⟩]
+
+def haltedWith (stack : List Val) : Final Unit → Bool
+  | .halted s => decide (s.stack = stack)
+  | _ => false
+
+example : haltedWith [.int 6] (runG exPrims exCtrl exProg2 true 20 exProg2 [] ⟨[], 0, ()⟩) = true := by
+  decide +kernel
+
+example : optimize exEnv exProg2 = .ok
+    [.instr (.pushInt 5) ⟨0, 1, 0⟩, .instr (.other "Call(f)") ⟨0, 2, 0⟩, .instr (.jump "end") ⟨0, 3, 0⟩,
+     .instr (.pushInt 99) ⟨0, 4, 0⟩, .label "end", .instr (.other "Stop") ⟨0, 5, 0⟩,
+     .label "f", .instr (.binIImm .add .top .top 1) ⟨0, 7, 1⟩, .instr (.other "Return") ⟨0, 8, 1⟩] := by
+  decide +kernel
+
+example : haltedWith [.int 6] (runG exPrims exCtrl
+    [.instr (.pushInt 5) ⟨0, 1, 0⟩, .instr (.other "Call(f)") ⟨0, 2, 0⟩, .instr (.jump "end") ⟨0, 3, 0⟩,
+     .instr (.pushInt 99) ⟨0, 4, 0⟩, .label "end", .instr (.other "Stop") ⟨0, 5, 0⟩,
+     .label "f", .instr (.binIImm .add .top .top 1) ⟨0, 7, 1⟩, .instr (.other "Return") ⟨0, 8, 1⟩] false 20
+    [.instr (.pushInt 5) ⟨0, 1, 0⟩, .instr (.other "Call(f)") ⟨0, 2, 0⟩, .instr (.jump "end") ⟨0, 3, 0⟩,
+     .instr (.pushInt 99) ⟨0, 4, 0⟩, .label "end", .instr (.other "Stop") ⟨0, 5, 0⟩,
+     .label "f", .instr (.binIImm .add .top .top 1) ⟨0, 7, 1⟩, .instr (.other "Return") ⟨0, 8, 1⟩]
+    [] ⟨[], 0, ()⟩) = true := by
+  decide +kernel
 
 end Abra.Opt
